@@ -228,7 +228,7 @@ structure Opts where
   nOpts : Nat          -- after the vbtol adjustment
   needVbtol : Bool
   vbtol : Bytes
-  deriving Repr
+  deriving Repr, DecidableEq
 
 def Opts.z (o : Opts) (i : Nat) : Int := o.opts.getD (o.nOpts + 1 + i) 0
 
